@@ -271,6 +271,76 @@ end SEB;
 """
 
 
+SIM_START_MODEL = """model SFS
+  input Real u0;
+  Real x(start=2.0, nominal=%s);
+  Real z(start=-1.5, nominal=%s);
+equation
+  der(x) = (u0 - 0.5 * x) / 3600.0;
+  der(z) = (x - z) / 3600.0;
+end SFS;
+"""
+
+
+def run_sim_start(noms):
+    """free (not fixed) states with start values and nominals, no other variable competing for the initial
+    state: the initial state is the start value"""
+    import logging
+    import shutil
+    import tempfile
+    import warnings
+    warnings.filterwarnings("ignore")
+    logging.disable(logging.CRITICAL)
+    from rtctools.simulation.csv_mixin import CSVMixin
+    from rtctools.simulation.simulation_problem import SimulationProblem
+    from .. import mo
+    from .c09 import T0
+    base = tempfile.mkdtemp(prefix="verif_c08_")
+    try:
+        mdl, inp, outp = (os.path.join(base, d) for d in ("model", "input", "output"))
+        for d in (mdl, inp, outp):
+            os.makedirs(d)
+        with open(os.path.join(mdl, "SFS.mo"), "w") as fh:
+            fh.write(SIM_START_MODEL % (repr(float(noms[0])), repr(float(noms[1]))))
+        mo.write_timeseries_csv(os.path.join(inp, "timeseries_import.csv"), T0, 3600, {"u0": ["1", "1", "1"]})
+
+        class S(CSVMixin, SimulationProblem):
+            def compiler_options(self):
+                o = super().compiler_options()
+                o["cache"] = False
+                return o
+        p = S(model_folder=mdl, model_name="SFS", input_folder=inp, output_folder=outp)
+        p.pre()
+        p.initialize()
+        out = [{n: float(p.get_var(n)) for n in ("x", "z")}]
+        p.update(-1)
+        out.append({n: float(p.get_var(n)) for n in ("x", "z")})
+        return out
+    except Exception as e:  # noqa: BLE001
+        return {"error": "%s: %s" % (type(e).__name__, str(e)[:200])}
+    finally:
+        shutil.rmtree(base, ignore_errors=True)
+
+
+def sim_free_starts(ctx):
+    from concurrent.futures import ProcessPoolExecutor
+    pairs = [(1.0, 1.0), (10.0, 0.5), (0.01, 100.0), (250.0, 4.0)]
+    with ProcessPoolExecutor(max_workers=4) as ex:
+        res = list(ex.map(run_sim_start, pairs))
+    ctx.count("sim_free_start_models", len(pairs))
+    ctx.case_done(core.fingerprint(["sim-free-start"]), True)
+    if any(isinstance(r, dict) for r in res):
+        ctx.count("sim_free_start_unsolved")
+        return
+    ref = res[0]
+    for nm, r in zip(pairs, res):
+        if abs(r[0]["x"] - 2.0) > 1e-6 or abs(r[0]["z"] + 1.5) > 1e-6 or any(abs(r[k][v] - ref[k][v]) > 1e-6 * (1 + abs(ref[k][v])) for k in (0, 1) for v in ("x", "z")):
+            ctx.violation("nominals/sim-start-values", {"nominals": nm, "trajectory": r, "with_unit_nominals": ref},
+                          what="simulation with nominals %s starts at x = %r, z = %r (start values 2 and -1.5; unit nominals give %r, %r)" % (
+                              nm, r[0]["x"], r[0]["z"], ref[0]["x"], ref[0]["z"]))
+            break
+
+
 def run_sim_extra(nominal):
     import logging
     import shutil
@@ -380,3 +450,4 @@ def run(ctx):  # noqa: F811
         sim_nominal_cases(ctx)
         history_windows(ctx)
         sim_extra_bounds(ctx)
+        sim_free_starts(ctx)
